@@ -88,6 +88,9 @@ func (e *Env) DeliverWith(ctx sdk.Context, txLabel string, h Handler, msgs ...sd
 // DeliverBytes is DeliverWith with explicit transaction bytes; nil models a message executed outside a
 // transaction (e.g. by a passed governance proposal in an end-blocker), where ctx.TxBytes() is empty.
 func (e *Env) DeliverBytes(ctx sdk.Context, txb []byte, h Handler, msgs ...sdk.Msg) (out Outcome) {
+	if e.Results != nil {
+		defer func() { e.Results.tx(out) }()
+	}
 	if e.Trace != nil {
 		custom := h != nil || txb == nil
 		var signed []byte
@@ -174,10 +177,70 @@ type BlockOutcome struct {
 // a branch) and returns the context of the new block.
 func (e *Env) NextBlock(ctx sdk.Context, dt time.Duration) (sdk.Context, BlockOutcome) {
 	bo := e.EndBlockOnly(ctx)
+	if f := e.BetweenBlocks; f != nil {
+		// one-shot hook (see Restarting): something that happens to a chain between two blocks
+		e.BetweenBlocks = nil
+		ctx = f(ctx)
+	}
 	nctx, bo2 := e.BeginNext(ctx, dt)
 	bo.Panics = append(bo.Panics, bo2.Panics...)
 	bo.Events = append(bo.Events, bo2.Events...)
+	if e.Results != nil {
+		e.Results.block(bo)
+	}
 	return nctx, bo
+}
+
+// ResultLog is a running digest of what transactions and blocks *returned* (result class, error code, typed
+// responses, events with their attributes) - the part of "the same history gives the same results" that is not
+// in any store. The determinism check compares it between replicas.
+type ResultLog struct {
+	h     [32]byte
+	N     int
+	First string // first recorded item in clear (for messages)
+}
+
+func (r *ResultLog) add(s string) {
+	if r.N == 0 {
+		r.First = s
+	}
+	r.N++
+	r.h = sha256.Sum256(append(r.h[:], []byte(s)...))
+}
+
+func (r *ResultLog) Sum() []byte { return append([]byte{}, r.h[:]...) }
+
+func eventsString(evs sdk.Events) string {
+	var b strings.Builder
+	for _, ev := range evs {
+		b.WriteString(ev.Type)
+		b.WriteByte('{')
+		for _, a := range ev.Attributes {
+			b.WriteString(a.Key + "=" + a.Value + ";")
+		}
+		b.WriteByte('}')
+	}
+	return b.String()
+}
+
+func (r *ResultLog) tx(o Outcome) {
+	var b strings.Builder
+	fmt.Fprintf(&b, "tx|%s|%s|%d|", o.Class(), o.Codespace, o.Code)
+	if o.OK {
+		for _, resp := range o.Responses {
+			if resp != nil {
+				if bz, err := proto.Marshal(resp); err == nil {
+					fmt.Fprintf(&b, "%x,", bz)
+				}
+			}
+		}
+		b.WriteString("|" + eventsString(o.Events))
+	}
+	r.add(b.String())
+}
+
+func (r *ResultLog) block(bo BlockOutcome) {
+	r.add(fmt.Sprintf("block|%d|%s", len(bo.Panics), eventsString(bo.Events)))
 }
 
 // BeginNext moves ctx to height+1 / time+dt (app hash = hash of the irismod stores as they are now, i.e. at
